@@ -2,6 +2,7 @@ import PdfModel.Lemmas.PageTree
 import PdfModel.Generated.Lexical
 import PdfModel.Lemmas.PageTreeBytes
 import PdfModel.Model.PageTreeDerived
+import PdfModel.Lemmas.PageTreeDerived
 
 /-!
   C07 — "Page n is the n-th leaf of the page tree; attributes come from nearest ancestor".
@@ -362,6 +363,15 @@ theorem page_nth_bytes_partial2 (bitsOf : R → Nat) (fmt : R → List UInt8) (e
   · simp only [getPageBD, openPagesBD, hopen, hrootOf, hload]
     exact hpage
   · simp only [numPagesBD, openPagesBD, hopen, hrootOf, hload, hnum]
+
+/-- first step of `DerivedAgrees`, for every file: a /Pages node without /Parent and without attributes — the root of
+    an attribute-free tree — is read by the generated `PageTree` reader (through the /Type dispatch, at tower level
+    `lvl`) as the node `nodeOf` reads: /Kids in order, /Count. What is open beyond it is listed in notes/C07.md. -/
+theorem derived_agrees_bare_root (bitsOf : R → Nat) (resolve : Nat → Out (Offsets.Obj (Prim R))) (kids : List Nat)
+    (count : Nat) (hc : count ≤ 2147483647) :
+    derivedNode bitsOf resolve (nodeVal none kids count ⟨none, none, none⟩ : Prim R) =
+      nodeOf (nodeVal none kids count ⟨none, none, none⟩ : Prim R) := by
+  rw [derived_bare_root bitsOf resolve kids count hc, nodeOf_nodeVal none kids count _ (by decide)]
 
 /-! ### non-vacuity at byte level: a document is written, its bytes are opened, its pages are found -/
 
